@@ -61,6 +61,26 @@ def run(ctx, R, tier):
 
     # ---------------------------------------------------------------- R1
     packs = [c for c, _ in ctx.cg.calls_of(snd) if ctx.ext_name(c, snd) == "struct.pack"]
+    # struct.pack_into(fmt, buffer, offset, v...) packs the same fields; it is looked at as struct.pack(fmt, v...) plus an obligation on the buffer (below)
+    into_sites = [c for c, _ in ctx.cg.calls_of(snd) if ctx.ext_name(c, snd) == "struct.pack_into" and len(c.args) >= 3]
+    for c in into_sites:
+        syn = ast.Call(func=ast.Attribute(value=ast.Name(id="struct", ctx=ast.Load()), attr="pack", ctx=ast.Load()), args=[c.args[0]] + list(c.args[3:]), keywords=[])
+        ast.copy_location(syn, c)
+        syn._parent = getattr(c, "_parent", None)
+        syn._pack_into = c
+        packs.append(syn)
+    shared_buf = None
+    for c in into_sites:
+        b = c.args[1]
+        base = b
+        while isinstance(base, (ast.Attribute, ast.Subscript, ast.Call)):
+            base = base.value if not isinstance(base, ast.Call) else base.func
+        if isinstance(base, ast.Name) and not ctx.cg.is_local(snd, base.id):
+            shared_buf = c
+    R.check(shared_buf is None, "C06-R2", "encoder|packs-into-its-own-memory", "the header is packed into memory that belongs to this message (not into a module-level buffer)",
+            snd.loc(shared_buf) if shared_buf is not None else snd.loc(),
+            "`%s` packs the header into an object shared by every message: two threads building messages at the same time overwrite each other's header before it is joined "
+            "into the message - type, flags, sequence number and lengths of another message go out" % (unparse(shared_buf, 60) if shared_buf is not None else ""))
     unpacks = [c for c, _ in ctx.cg.calls_of(rcv) if ctx.ext_name(c, rcv) == "struct.unpack"]
     hdr_pack = [c for c in packs if c.args and ctx.resolves_to_object(c.args[0], snd, PROTO + "._header_format")]
     hdr_unpack = [c for c in unpacks if c.args and ctx.resolves_to_object(c.args[0], rcv, PROTO + "._header_format")]
